@@ -113,6 +113,23 @@ pub fn write_content_fd(f: &File, c: &Content) -> io::Result<()> {
                 off += l;
             }
             Seg::Hole(l) => off += l,
+            Seg::PreData(l, _, _) if *l == 0 => {}
+            Seg::PreData(l, d, seed) => {
+                let d = &std::cmp::min(*d, *l);
+                // preallocate (unwritten extent), then write into its beginning
+                let r = unsafe { libc::fallocate(f.as_raw_fd(), 0, off as i64, *l as i64) };
+                if r != 0 {
+                    return Err(io::Error::last_os_error());
+                }
+                let mut done = 0u64;
+                while done < *d {
+                    let n = std::cmp::min(buf.len() as u64, d - done) as usize;
+                    fill_pattern(&mut buf[..n], off + done, *seed);
+                    f.write_all_at(&buf[..n], off + done)?;
+                    done += n as u64;
+                }
+                off += l;
+            }
         }
     }
     f.set_len(off)?;
